@@ -210,7 +210,80 @@ def _discharge_sub(b, bb, a, c):
                     return "unmatched", ("`%s` is evaluated outside the loop over the characters/bytes: it underflows for an "
                                          "empty input (panic with overflow checks)" % txt[:100])
             return "trusted", reason
-    return "unmatched", "checked subtraction `%s` is not dominated by a guard implying it cannot underflow" % txt[:140]
+    # neither proved nor tabled: look for concrete values of the opaque terms, consistent with the dominating guards (and with
+    # the storage invariant cap(len) <= data.len()), for which the subtraction does underflow. A model is a finding; when there
+    # is none in the search domain the site is merely not decided.
+    m = _underflow_model(b, bb, a, c, _fresh_relations(b, bb, rels))
+    if m is None:
+        return "undecided", "checked subtraction `%s`: no underflowing values found under the dominating guards, no proof either" % txt[:120]
+    if m == "unknown":
+        return "unmatched", "checked subtraction `%s` is not dominated by a guard implying it cannot underflow" % txt[:140]
+    return "unmatched", ("checked subtraction `%s` is not dominated by a guard implying it cannot underflow (e.g. %s)"
+                         % (txt[:120], ", ".join("%s = %d" % (show(k)[:28], v) for k, v in m.items())))
+
+
+def _underflow_model(b, bb, a, c, rels):
+    """{leaf: value} with every relation satisfied and a < c; None if no such assignment exists in the search domain;
+    'unknown' when the expressions cannot be evaluated (too many opaque terms, loop counters of unmodelled iterators)"""
+    import itertools
+    from . import lenflow
+    crate = b.crate
+
+    def canon(x):
+        return lenflow.canon(crate, mir.strip_casts(x))
+
+    a2, c2 = canon(a), canon(c)
+    rels2 = [(op, canon(l), canon(r)) for op, l, r in rels if op in lenflow._OPS]
+    # loop counters: bounded by their range when it is known
+    for x in list(walk(a2)) + list(walk(c2)):
+        if isinstance(x, tuple) and x[:1] == ("iv",) and len(x) == 2:
+            sh = b.iter_shape(x[1])
+            if sh is None or sh.get("hi") is None or not sh["plain_range"]:
+                src = _strip_iter_adaptors(b.iter_source(x[1]))
+                if not (src and src[0] == "agg" and src[1] == "Range" and len(src[3]) == 2):
+                    return "unknown"
+                lo, hi = src[3]
+            else:
+                lo, hi = sh["lo"], sh["hi"]
+            rels2.append(("Ge", x, canon(lo)))
+            rels2.append(("Lt", x, canon(hi)))
+    target = []
+    for x in (a2, c2):
+        lenflow._leaves(x, target)
+    # only the guards that speak about the terms of the subtraction itself take part (a guard on something else neither
+    # helps nor hurts; one that mixes in a foreign term is left out, which can only make the search find more models)
+    kept = []
+    for op, l, r in rels2:
+        ls = []
+        lenflow._leaves(l, ls)
+        lenflow._leaves(r, ls)
+        if ls and all(x in target for x in ls):
+            kept.append((op, l, r))
+    rels2 = kept
+    leaves = list(target)
+    # storage invariant of the vector types: the used words exist
+    sl = ("field", ("param", "self"), "length")
+    for lf in list(leaves):
+        if is_call(lf, "len") and len(lf[3]) == 1 and mir.strip_casts(lf[3][0]) == ("field", ("param", "self"), "data") and b.self_family == "Bvd":
+            rels2.append(("Le", ("call", "capacity_from_bit_len", None, (sl,), ()), lf))
+            if sl not in leaves:
+                leaves.append(sl)
+    if len(leaves) > 4 or any(lf[0] in ("unknown", "phi", "ivopt") for lf in leaves):
+        return "unknown"
+    doms = [lenflow.WIDTH_DOMAIN if (lf[0] == "assoc" and lf[1] == "BITS") else lenflow.LEN_DOMAIN + (2, 3, 130) for lf in leaves]
+    seen_valid = False
+    for combo in itertools.product(*doms):
+        env = dict(zip(leaves, combo))
+        try:
+            if not all(lenflow._OPS[op](lenflow._eval(l, env), lenflow._eval(r, env)) for op, l, r in rels2):
+                continue
+            av, cv = lenflow._eval(a2, env), lenflow._eval(c2, env)
+        except lenflow.NoValue:
+            continue
+        seen_valid = True
+        if av < cv:
+            return env
+    return None if seen_valid else "unknown"
 
 
 def _fresh_relations(b, bb, rels):
@@ -526,6 +599,47 @@ def _at_most_word(e, depth=0):
     return False
 
 
+def _magnitude(b, e, depth=0):
+    """upper bound of an unsigned expression as a fraction of usize::MAX, or None when nothing is known. Used to show that a
+    sum cannot overflow whatever the (saturated) shift amount is."""
+    e = mir.strip_casts(e)
+    if depth > 6:
+        return None
+    if e[0] == "int":
+        return 0.0 if e[1] < (1 << 32) else None
+    if is_bin(e, ("Div", "Shr")):
+        if e[1] == "Div" and (_is_bu(e[3]) or (e[3][0] == "int" and e[3][1] >= 8)):
+            m = _magnitude(b, e[2], depth + 1)
+            return (1.0 if m is None else m) / 8
+        return _magnitude(b, e[2], depth + 1)
+    if is_bin(e, "Rem") and (_is_bu(e[3]) or e[3][0] == "int"):
+        return 0.0
+    if is_bin(e, "Add"):
+        x, y = _magnitude(b, e[2], depth + 1), _magnitude(b, e[3], depth + 1)
+        return None if x is None or y is None else x + y
+    if is_bin(e, "Sub"):
+        return _magnitude(b, e[2], depth + 1)
+    if is_call(e, "min") and len(e[3]) == 2:
+        ms = [m for m in (_magnitude(b, a, depth + 1) for a in e[3]) if m is not None]
+        return min(ms) if ms else None
+    if is_call(e, ("capacity_from_bit_len", "int_len")) or (is_call(e, "len") and "slice" in (e[2] or "")):
+        return 1.0 / 16          # a number of allocated words: the allocation is at most isize::MAX bytes
+    if e[:1] == ("iv",) and len(e) == 2:
+        sh = b.iter_shape(e[1])
+        hi = sh.get("hi") if sh else None
+        if hi is None:
+            src = _strip_iter_adaptors(b.iter_source(e[1]))
+            if src and src[0] == "agg" and src[1] == "Range" and len(src[3]) == 2:
+                hi = src[3][1]
+        return _magnitude(b, hi, depth + 1) if hi is not None else None
+    if e[0] == "var" and len(e) > 2:
+        init = b.init_expr(e[2]) if len(b.full_defs(e[2])) == 1 else None
+        return _magnitude(b, init, depth + 1) if init is not None else None
+    if is_call(e, ("unwrap_or", "map_or")):
+        return 1.0
+    return None
+
+
 def shift_amount_arith(crate):
     """The shift kernels saturate an amount that does not fit usize to usize::MAX, so any overflow-checked `+` / `*` that
     involves the amount is a build-profile divergence (panic with overflow checks, wrap-around without) unless it is one
@@ -558,6 +672,11 @@ def shift_amount_arith(crate):
                 continue
             seen.add(key)
             if "Add" in t["kind"]:
+                mx, my = _magnitude(b, x), _magnitude(b, y)
+                if mx is not None and my is not None and mx + my < 1.0:
+                    res.append((b, key, "pass", "cannot overflow: a quotient by the word width is at most usize::MAX / 8, a word index at "
+                                "most usize::MAX / 16 (allocation limit), the rest are small constants"))
+                    continue
                 if (y == ("int", 1) and is_bin(x, "Rem") and _is_bu(x[3])) or (x == ("int", 1) and is_bin(y, "Rem") and _is_bu(y[3])):
                     res.append((b, key, "pass", "(.. % BIT_UNIT) + 1 <= BIT_UNIT"))
                     continue
